@@ -32,6 +32,8 @@ CONSTANTS
     InitKinds,    \* subset of PanickingKinds \cup TryKinds (below)
     ObsOps,       \* subset of {"is_enabled", "emit", "span", "flush", "probe"}
     MaxObs,       \* operations per observer
+    HandleOps,    \* subset of {"h_probe", "h_flush", "h_guard_drop"} ({} = no handle phase)
+    MaxHandle,    \* operations a successful initialiser makes through its handle
     Design        \* "oncelock" | "percomponent" | "twostep" | "lastwins"
 
 Empty == 0
@@ -52,9 +54,14 @@ VARIABLES
     ipc, ikind, ires, iret,
     opc, oop, oread, ocount, omust,
     seenEnabled,  \* some returned observation showed the slot enabled
-    obsLog        \* the returned observations
+    obsLog,       \* the returned observations
+    hnd,          \* per initialiser: what it does with the handle (Init) it was given
+    hLog          \* the returned handle operations
 
 vars == <<slot, flag, ipc, ikind, ires, iret, opc, oop, oread, ocount, omust, seenEnabled, obsLog>>
+hvars == <<hnd, hLog>>
+allvars == <<vars, hvars>>
+NoHandle == [pc |-> "idle", op |-> "none", n |-> 0, gone |-> FALSE]
 
 Init ==
     /\ slot = Empty /\ flag = FALSE
@@ -69,6 +76,8 @@ Init ==
     /\ omust = [o \in Observers |-> FALSE]
     /\ seenEnabled = FALSE
     /\ obsLog = {}
+    /\ hnd = [i \in Inits |-> NoHandle]
+    /\ hLog = {}
 
 -----------------------------------------------------------------------------
 InitCall(i, k) ==
@@ -177,16 +186,65 @@ ObsReturn(o) ==
     /\ opc[o] = "read"
     /\ ObsRet(o, ResultOf(o))
 
-Next ==
-    \/ \E i \in Inits, k \in InitKinds : InitCall(i, k)
-    \/ \E i \in Inits : TrySet(i)
-    \/ \E i \in Inits : Publish(i)
-    \/ \E i \in Inits, r \in {"some", "nil", "ok", "panic"} : InitRet(i, r)
-    \/ \E o \in Observers, op \in ObsOps : ObsCall(o, op)
-    \/ \E o \in Observers : Read(o)
-    \/ \E o \in Observers : ObsReturn(o)
+-----------------------------------------------------------------------------
+(* The post-initialisation phase of the winner: the Setup forms hand the successful caller an
+   `Init` with references to its own emitter / ctxt and to the runtime (Init::get).  What it
+   does through the handle needs no read of the slot: it reaches the caller's own
+   configuration - which is the installed one.
+     h_probe      the five components through Init::get()
+     h_flush      Init::blocking_flush(timeout): the emitter is asked once, its answer returned
+     h_guard_drop Init::flush_on_drop(timeout), InitGuard::inner(), then dropping the guard:
+                  the emitter is asked exactly once, when the guard is dropped *)
+HandleKinds == {"try_init_slot", "init_slot", "try_init", "init", "try_init_internal",
+                "init_internal"}
+HComps(op) == IF op = "h_probe" THEN {1, 2, 3, 4, 5} ELSE {1}
+HFlushes(op) == IF op \in {"h_flush", "h_guard_drop"} THEN 1 ELSE 0
 
-Spec == Init /\ [][Next]_vars
+HandleCall(i, op) ==
+    /\ ipc[i] = "returned" /\ iret[i] \in {"some", "ok"} /\ ikind[i] \in HandleKinds
+    /\ hnd[i].pc = "idle" /\ ~hnd[i].gone /\ hnd[i].n < MaxHandle
+    /\ hnd' = [hnd EXCEPT ![i] = [@ EXCEPT !.pc = "called", !.op = op]]
+    /\ UNCHANGED <<vars, hLog>>
+
+\* level B: the handle's references are to the components the caller passed in (tag i)
+HResultOf(i) ==
+    [i |-> i, op |-> hnd[i].op,
+     tags |-> [k \in 1..NComp |-> IF k \in HComps(hnd[i].op) THEN i ELSE Unobs],
+     flushes |-> HFlushes(hnd[i].op)]
+
+HandleRet(i, res) ==
+    /\ hnd[i].pc = "called"
+    /\ res = HResultOf(i)
+    /\ hnd' = [hnd EXCEPT ![i] = [@ EXCEPT !.pc = "idle", !.n = @ + 1,
+                                          !.gone = (res.op = "h_guard_drop")]]
+    /\ hLog' = hLog \cup {res}
+    /\ UNCHANGED vars
+
+HandleReturn(i) ==
+    /\ hnd[i].pc = "called"
+    /\ HandleRet(i, HResultOf(i))
+
+\* the actions above leave the handle phase alone
+DoInitCall(i, k) == InitCall(i, k) /\ UNCHANGED hvars
+DoTrySet(i) == TrySet(i) /\ UNCHANGED hvars
+DoPublish(i) == Publish(i) /\ UNCHANGED hvars
+DoInitRet(i, r) == InitRet(i, r) /\ UNCHANGED hvars
+DoObsCall(o, op) == ObsCall(o, op) /\ UNCHANGED hvars
+DoRead(o) == Read(o) /\ UNCHANGED hvars
+DoObsReturn(o) == ObsReturn(o) /\ UNCHANGED hvars
+
+Next ==
+    \/ \E i \in Inits, k \in InitKinds : DoInitCall(i, k)
+    \/ \E i \in Inits : DoTrySet(i)
+    \/ \E i \in Inits : DoPublish(i)
+    \/ \E i \in Inits, r \in {"some", "nil", "ok", "panic"} : DoInitRet(i, r)
+    \/ \E o \in Observers, op \in ObsOps : DoObsCall(o, op)
+    \/ \E o \in Observers : DoRead(o)
+    \/ \E o \in Observers : DoObsReturn(o)
+    \/ \E i \in Inits, op \in HandleOps : HandleCall(i, op)
+    \/ \E i \in Inits : HandleReturn(i)
+
+Spec == Init /\ [][Next]_allvars
 
 -----------------------------------------------------------------------------
 (* Properties, over the observable results *)
@@ -216,6 +274,12 @@ ExactlyOneWinner ==
 LosersNeverReceive ==
     \A r \in obsLog : \A k \in Comps(r.op) :
         r.tags[k] # Empty => ~Failure(iret[r.tags[k]])
+
+\* what a successful caller reaches through its handle is the installed configuration, all
+\* components of it; a flush through the handle (or on dropping its guard) asks once
+HandleIsInstalled ==
+    \A h \in hLog : /\ \A k \in HComps(h.op) : h.tags[k] = slot /\ slot # Empty
+                     /\ h.flushes = HFlushes(h.op)
 
 \* an observation shows the empty runtime in all components or one configuration in all
 AllFiveTogether ==
